@@ -168,10 +168,13 @@ TFsOlder == /\ E.ev = "FsDeleteOlderThan" /\ ~skipping
 TFsTrim == /\ E.ev = "FsTrimTo" /\ ~skipping
            /\ LET n == SizeTrimW(TheS, E.max) IN FsResult([n EXCEPT !.crashed = FALSE], n.crashed)
 
+TConfig == /\ E.ev = "Config" /\ ~skipping
+           /\ IF ConfigOk(E.args, E.got) THEN UNCHANGED <<bad, skipping, nvalid, sok, poss, big, crashes>>
+              ELSE Fail(<<"Config", E.args, "got", E.got>>)
 TSkip == E.ev # "Reset" /\ skipping /\ UNCHANGED <<bad, skipping, nvalid, sok, poss, big, crashes>>
 TNext == l <= Len(Rec) /\ l' = l + 1
          /\ (TReset \/ TStart \/ TCrash \/ TBatch \/ TStop \/ TInconclusive \/ TFsNew \/ TFsPush \/ TFsDeleteOldest \/ TFsOlder
-             \/ TFsTrim \/ TSkip)
+             \/ TFsTrim \/ TConfig \/ TSkip)
 TSpec == TInit /\ [][TNext]_tvars
 Report == IF l = Len(Rec) + 1
           THEN JsonSerialize(IOEnv.REPORT, [nvalid |-> Count, bad |-> SetToSeq(bad), events |-> Len(Rec)])
